@@ -77,7 +77,7 @@ def lib_root(cfg):
 class Harness:
     def __init__(self, name, src=None, cfg='asan', libs=('core',), parts=16, args=(),
                  thorough_parts=None, extra_flags='', tiers=('quick', 'thorough'), runner=None,
-                 alarm=None, gen=None, thorough_cfg=None, slices=0):
+                 alarm=None, gen=None, thorough_cfg=None, slices=0, run_tier=None):
         self.name = name
         self.src = list(src) if src else [name + '.cpp']
         self.cfg = cfg
@@ -92,6 +92,7 @@ class Harness:
         self.gen = gen  # optional callable producing generated sources: gen(outdir) -> [paths]
         self.thorough_cfg = thorough_cfg
         self.slices = slices  # >0: compile the source `slices` times with -DVF_SLICE=i plus once with -DVF_SLICE=-1
+        self.run_tier = run_tier  # workload size handed to the binary when it differs from the tier of the check
 
     def for_tier(self, tier):
         if tier == 'thorough' and self.thorough_cfg and self.thorough_cfg != self.cfg:
@@ -294,7 +295,7 @@ def limit_resources():
 def run_part(h, tier, seed, part, nparts, rundir, frm=0, only=None, attempt=0, alarm=None):
     out = os.path.join(rundir, '%s.%d.%d.jsonl' % (h.name, part, attempt))
     logf = os.path.join(rundir, '%s.%d.%d.log' % (h.name, part, attempt))
-    cmd = [exe_path(h), '--tier', tier, '--seed', str(seed), '--part', '%d/%d' % (part, nparts), '--out', out]
+    cmd = [exe_path(h), '--tier', h.run_tier or tier, '--seed', str(seed), '--part', '%d/%d' % (part, nparts), '--out', out]
     if frm:
         cmd += ['--from', str(frm)]
     if only is not None:
@@ -314,7 +315,8 @@ def run_part(h, tier, seed, part, nparts, rundir, frm=0, only=None, attempt=0, a
                                'exitcode=0:log_path=' + os.path.join(rundir, 'tsan_%s_%d' % (h.name, part)))
     if h.runner == 'valgrind':
         cmd = ['valgrind', '--tool=memcheck', '--error-exitcode=97', '--leak-check=full',
-               '--errors-for-leak-kinds=definite,indirect', '-q'] + cmd
+               '--errors-for-leak-kinds=definite,indirect', '-q',
+               '--suppressions=' + os.path.join(VERIF, 'lib', 'vf', 'valgrind.supp')] + cmd
     wall = 7200 if tier == 'thorough' else 1800
     t0 = time.time()
     with open(logf, 'w') as lf:
@@ -397,6 +399,8 @@ def check(prop, tier, seed):
     t0 = time.time()
     pid = prop.pid
     hs = [h.for_tier(tier) for h in prop.harnesses if tier in h.tiers]
+    if os.environ.get('VERIF_ONLY_HARNESS'):  # development aid: evidence is then written to the run directory only
+        hs = [h for h in hs if h.name == os.environ['VERIF_ONLY_HARNESS']]
     log('[%s] building (%s) against %s' % (pid, ', '.join(h.name for h in hs), REPO))
     if not build_harnesses(hs):
         log('[%s] BUILD FAILED' % pid)
@@ -596,7 +600,7 @@ def check(prop, tier, seed):
     cov.update(post_info.get('coverage', {}))
     ev = {'property_id': pid, 'tier': tier, 'seed': int(seed), 'level': 'exploration', 'coverage': cov,
           'assumptions': prop.assumptions, 'wall_s': round(wall, 2), 'violations': len(new_keys)}
-    if REPO == '/repo':
+    if REPO == '/repo' and not os.environ.get('VERIF_ONLY_HARNESS'):
         os.makedirs(os.path.join(VERIF, 'evidence'), exist_ok=True)
         evp = os.path.join(VERIF, 'evidence', pid + '.json')
     else:
